@@ -67,6 +67,7 @@ type vpC34Node struct {
 }
 
 type vpC34Case struct {
+	freeViewPayees int // payees whose view key is not derived from the spend key
 	Network   crypto.Hash
 	Prev      *CustodianUpdateRequest
 	PrevAddr  Address // previous custodian account (with private keys)
@@ -122,6 +123,13 @@ func vpC34Gen(t *rapid.T) *vpC34Case {
 		Timestamp: rapid.Uint64().Draw(t, "prev_ts")}
 	for i := 0; i < n; i++ {
 		nd := &vpC34Node{Custodian: cs.nextAddr(), Payee: cs.nextAddr(), Signer: cs.nextAddr()}
+		if rapid.IntRange(0, 2).Draw(t, "payee_free_view") == 0 {
+			// an ordinary account as payee: its view key is its own, not derived
+			// from the spend key the way kernel node keys are
+			v := crypto.NewKeyFromSeed(vpC34Seed(cs.master, 100000+cs.keyIndex))
+			nd.Payee.PrivateViewKey, nd.Payee.PublicViewKey = v, v.Public()
+			cs.freeViewPayees++
+		}
 		rel := "new"
 		switch mode {
 		case "same-account":
@@ -706,7 +714,7 @@ func vpC34Uniq(in []string) []string {
 
 func TestVP_C34_parse_roundtrip(t *testing.T) {
 	c := kit.New(t, "C34", "rapid: 7..50 encoded entries sorted by custodian key -> ParseCustodianUpdateNodesExtra returns the same custodian account, approval signature and the same entries (public keys and raw bytes) in the same order; with genesis=true the same holds for entries whose signatures were destroyed; any non-sorted permutation is refused; non-trivial = every case; distinct by hash of extra")
-	c.Require("roundtrip", "genesis-roundtrip", "permutation-refused", "n=50")
+	c.Require("roundtrip", "genesis-roundtrip", "permutation-refused", "n=50", "payee-with-own-view-key")
 	kit.SetChecks(kit.N(200, 6000))
 	rapid.Check(t, func(t *rapid.T) {
 		cs := vpC34Gen(t)
@@ -742,6 +750,9 @@ func TestVP_C34_parse_roundtrip(t *testing.T) {
 		}
 		check(extra, false, cs.entries())
 		cl := []string{"roundtrip"}
+		if cs.freeViewPayees > 0 {
+			cl = append(cl, "payee-with-own-view-key")
+		}
 		if len(cs.Nodes) == 50 {
 			cl = append(cl, "n=50")
 		}
